@@ -407,6 +407,7 @@ class Discharger:
                 return small(e['args'][0], depth + 1) or small(e['args'][1], depth + 1)
             return False
         # the width is handed to the formatter as `from_usize(&args.N)`, N-th element of the argument tuple of the same format block
+        seen_width = False
         for b in walk(t['body']):
             if b['k'] != 'Block' or not b.get('stmts'): continue
             tup = None
@@ -421,6 +422,9 @@ class Discharger:
                     if e['k'] == 'Call' and callee_name(e) == 'core::fmt::rt::Argument::from_usize':
                         fld = [x for x in walk(e['args'][0]) if x['k'] == 'Field']
                         if not fld or fld[0]['field'] >= len(tup) or not small(tup[fld[0]['field']]): return None
+                        seen_width = True
+        # (seed C12-r11a: a width inside a helper that is not inlined into the function the site is judged for was "capped" vacuously)
+        if not seen_width: return None
         return 'R15: every run-time format width in this function is a constant below 65536 or capped by one'
 
     # R14: a requested capacity that is a constant, or the length of a collection that already exists
